@@ -27,6 +27,7 @@ import (
 	"github.com/youchainhq/go-youchain/common"
 	"github.com/youchainhq/go-youchain/core/state"
 	"github.com/youchainhq/go-youchain/core/types"
+	"github.com/youchainhq/go-youchain/params"
 	"github.com/youchainhq/go-youchain/rlp"
 	"github.com/youchainhq/go-youchain/staking"
 
@@ -183,7 +184,8 @@ func modelEV(ev staking.Evidence) (string, *staking.EvidenceDoubleSignV5) {
 // ---- state crafting ---------------------------------------------------------------------------------
 
 type ucase struct {
-	kind    string // U or T
+	cfg     []uint64 // optional override: PenaltyFractionForDoubleSign, ExpelledRoundForDoubleSign, MaxEvidenceExpiredIn
+	kind    string   // U or T
 	parent  uint64
 	hdrNum  uint64
 	tpAddr  common.Address
@@ -212,6 +214,11 @@ func parseCase(lines []string) (*ucase, error) {
 				return nil, fmt.Errorf("bad T line")
 			}
 			c.kind, c.tpAddr, c.tpAmt = "T", addrOf(f[1]), bigOf(f[2])
+		case "CFG":
+			if len(f) != 4 {
+				return nil, fmt.Errorf("bad CFG line")
+			}
+			c.cfg = []uint64{u64(f[1]), u64(f[2]), u64(f[3])}
 		case "VAL":
 			if len(f) < 11 {
 				return nil, fmt.Errorf("bad VAL line")
@@ -371,16 +378,27 @@ func ints(l []int) string {
 	return strings.Join(s, ",")
 }
 
+// paramsFor returns the parameter table of a case (a copy with the case's overrides).
+func (s *scenario) paramsFor(c *ucase) *params.YouParams {
+	if c == nil || c.cfg == nil {
+		return s.yp
+	}
+	yp := *s.yp
+	yp.PenaltyFractionForDoubleSign, yp.ExpelledRoundForDoubleSign, yp.MaxEvidenceExpiredIn = c.cfg[0], c.cfg[1], c.cfg[2]
+	return &yp
+}
+
 func (s *scenario) runUnit(drv *vh.Driver, c *ucase) (*uresult, error) {
 	r := &uresult{}
+	yp := s.paramsFor(c)
 	st, err := s.craft(c)
 	if err != nil {
 		return nil, err
 	}
 	// model input = dump of the real crafted state + symbolic evidences
-	lines := []string{"RESET", s.cfgLine()}
+	lines := []string{"RESET", s.cfgLineFor(yp)}
 	lines = append(lines, s.setLines...)
-	lines = append(lines, stateLines(st, s.yp)...)
+	lines = append(lines, stateLines(st, yp)...)
 	for _, e := range c.evs {
 		lines = append(lines, e.model)
 	}
@@ -454,7 +472,7 @@ func (s *scenario) runUnit(drv *vh.Driver, c *ucase) (*uresult, error) {
 				r.goOut, r.crashed, r.panicMsg = "crash", true, fmt.Sprint(p)
 			}
 		}()
-		conf, pend, aff, _ := s.k.A.Staking.VerifProcessEvidences(s.yp, st, header, c.parent, evs)
+		conf, pend, aff, _ := s.k.A.Staking.VerifProcessEvidences(yp, st, header, c.parent, evs)
 		confirmed = conf
 		r.affected = aff
 		r.confirmed = matchIdx(c.evs, conf)
@@ -491,7 +509,7 @@ func (s *scenario) runUnit(drv *vh.Driver, c *ucase) (*uresult, error) {
 				r.goRpl = "decode-error"
 				return
 			}
-			s.k.A.Staking.VerifProcessEvidences(s.yp, st2, header, c.parent, back)
+			s.k.A.Staking.VerifProcessEvidences(yp, st2, header, c.parent, back)
 		}
 		r.goRpl = "ok " + stateCanon(st2, s.yp)
 	}()
